@@ -431,10 +431,67 @@ func genLog(g *common.Gen, r *common.Rand) {
 	}
 }
 
+// genWire: n started routers on a random connected topology; prefixes announced and withdrawn through the real
+// readvertise handler, link changes and stretches of a lossy network in between; at `wquiet` every router's installed
+// routes and prefix tables are examined.
+func genWire(g *common.Gen, r *common.Rand) {
+	n := r.Range(2, 5)
+	adv := 1000 * r.Range(1, 2)
+	g.Op("new wire %d %d %d", n, adv, adv*r.Range(2, 3))
+	g.Stat("hist-wire")
+	adj := make([][]bool, n)
+	for i := range adj {
+		adj[i] = make([]bool, n)
+	}
+	for i := 1; i < n; i++ { // a random tree, then a few extra links
+		j := r.Intn(i)
+		adj[i][j], adj[j][i] = true, true
+		g.Op("link %d %d", j, i)
+	}
+	for k := r.Intn(n); k > 0; k-- {
+		a, b := r.Intn(n), r.Intn(n)
+		if a != b && !adj[a][b] {
+			adj[a][b], adj[b][a] = true, true
+			g.Op("link %d %d", a, b)
+		}
+	}
+	run := func() {
+		g.Op("wrun %d %d %d %d %d", r.Range(200, 3000), r.U64()%1000000, r.Pick3(0, 10, 30), r.Pick3(0, 10, 25), r.Pick3(0, 20, 300))
+	}
+	for phase := r.Range(1, 3); phase > 0; phase-- {
+		for k := r.Range(1, 4); k > 0; k-- {
+			switch r.Intn(6) {
+			case 0, 1, 2:
+				g.Op("wann %d %d", r.Intn(n), 100+r.Intn(numApp))
+			case 3:
+				g.Op("wwd %d %d", r.Intn(n), 100+r.Intn(numApp))
+			case 4:
+				a, b := r.Intn(n), r.Intn(n)
+				if a != b {
+					if adj[a][b] {
+						g.Op("unlink %d %d", a, b)
+					} else {
+						g.Op("link %d %d", a, b)
+					}
+					adj[a][b], adj[b][a] = !adj[a][b], !adj[a][b]
+				}
+			}
+			if r.Chance(2, 3) {
+				run()
+			}
+		}
+		g.Op("wquiet %d", r.U64()%1000000)
+	}
+}
+
 func gen(g *common.Gen) {
 	root := common.NewRand(dvsim.ScrambleSeed(common.Seed()))
 	for i := 0; i < g.N; i++ {
 		r := common.NewRand(dvsim.ScrambleSeed(root.U64()))
+		if i%40 == 7 {
+			genWire(g, r)
+			continue
+		}
 		if i%3 == 2 {
 			genLog(g, r)
 		} else {
@@ -508,8 +565,11 @@ func isNeighborRoute(cfg *config.Config, n enc.Name) bool {
 	return n.Equal(cfg.PrefixTableSyncPrefix())
 }
 
-func dumpFib() string {
-	nd := sim.Nodes[0]
+func dumpFib() string { return dumpFibOf(0) }
+
+// dumpFibOf: the commands router i's management thread has issued since the last dump, and its tables
+func dumpFibOf(i int) string {
+	nd := sim.Nodes[i]
 	type c struct {
 		id, face int
 		s        string
@@ -518,6 +578,9 @@ func dumpFib() string {
 	for _, m := range nd.Eng.TakeCmds() {
 		if m.Module != "rib" || isNeighborRoute(nd.Cfg, m.Name) {
 			continue
+		}
+		if sim.IsWire() && !m.HasFace {
+			continue // Router.Start registers the router's own prefixes (no face: towards the application itself)
 		}
 		id := uni.pfxId(m.Name)
 		switch {
@@ -1071,11 +1134,31 @@ func exec(op string) string {
 		sim.Close()
 		sim, uni, pend = nil, nil, map[int][]dvsim.Pending{}
 		advCnt, advWire = map[int]uint64{}, map[int][]byte{}
-		if len(f) != 3 {
+		if !(len(f) == 3 || (len(f) == 5 && f[1] == "wire")) {
 			return "bad-op"
 		}
 		kind = f[1]
 		switch kind {
+		case "wire":
+			// new wire <n> <adv ms> <dead ms>: n STARTED routers (real Router.Start), the harness is the network
+			if len(f) != 5 {
+				return "bad-op"
+			}
+			n := common.Atoi(f[2])
+			if n < 2 || n > 6 {
+				return "bad-op"
+			}
+			var err error
+			if sim, err = dvsim.NewSimWire(n, common.Atou(f[3]), common.Atou(f[4])); err != nil {
+				sim = nil
+				return "rejected"
+			}
+			uni = newUniverse(n)
+			wlink = make([][]bool, n)
+			for i := range wlink {
+				wlink[i] = make([]bool, n)
+			}
+			return "ok"
 		case "fib":
 			n := common.Atoi(f[2])
 			if n < 2 || n > 9 {
@@ -1106,6 +1189,9 @@ func exec(op string) string {
 	if sim == nil {
 		return "skip"
 	}
+	if kind == "wire" {
+		return execWire(f)
+	}
 	if kind == "fib" {
 		switch f[0] {
 		case "ping", "pingnew", "retry", "flood", "adv", "advrace", "dead", "sweep", "papply", "fib":
@@ -1116,6 +1202,84 @@ func exec(op string) string {
 	switch f[0] {
 	case "ann", "wd", "rv", "burst", "sync", "pairs", "prestart", "reach", "unreach", "deliver", "timeout", "drain":
 		return execLog(f)
+	}
+	return "skip"
+}
+
+// ---------------------------------------------------------------- wire histories (closed loop)
+
+var wlink [][]bool
+
+func wUp(u, w int) bool { return wlink[u][w] }
+
+// execWire: link / unlink a b; wann / wwd x id (router x announces / withdraws application prefix id through the
+// real readvertise handler); wrun ms seed loss dup delay; wquiet seed  => per router the commands issued since the
+// last wquiet and its tables, " | q=<0|1>"
+func execWire(f []string) string {
+	n := len(sim.Nodes)
+	idx := func(s string) int {
+		v := common.Atoi(s)
+		if v < 0 || v >= n {
+			return -1
+		}
+		return v
+	}
+	switch f[0] {
+	case "link", "unlink":
+		if len(f) != 3 {
+			return "bad-op"
+		}
+		a, b := idx(f[1]), idx(f[2])
+		up := f[0] == "link"
+		if a < 0 || b < 0 || a == b || wlink[a][b] == up {
+			return "skip"
+		}
+		wlink[a][b], wlink[b][a] = up, up
+		return "ok"
+	case "wann", "wwd":
+		if len(f) != 3 {
+			return "bad-op"
+		}
+		x, id := idx(f[1]), common.Atoi(f[2])
+		if x < 0 || id < 100 || id >= 100+numApp {
+			return "skip"
+		}
+		cmd := "register"
+		if f[0] == "wwd" {
+			cmd = "unregister"
+		}
+		return "ok" + readvertise(sim.Nodes[x], cmd, pfxName(id))
+	case "wrun":
+		if len(f) != 6 {
+			return "bad-op"
+		}
+		rr := common.NewRand(common.Atou(f[2]))
+		sim.WireRun(time.Duration(common.Atoi(f[1]))*time.Millisecond, 5*time.Millisecond, wUp,
+			dvsim.WireFaults{Loss: common.Atoi(f[3]), Dup: common.Atoi(f[4]), MaxDelay: time.Duration(common.Atoi(f[5])) * time.Millisecond, Rand: rr.Intn})
+		return "ok"
+	case "wquiet":
+		if len(f) != 2 {
+			return "bad-op"
+		}
+		rr := common.NewRand(common.Atou(f[1]))
+		cfg := sim.Nodes[0].Cfg
+		// long enough for every router's PERIODIC prefix-table Sync Interest (SvSync: every 30 s +- 10 %) to get through
+		// once on the reliable network: an announcement whose own Sync Interests were all lost is learnt from it
+		atLeast := 2*cfg.RouterDeadInterval() + 2*cfg.AdvertisementSyncInterval()
+		if atLeast < 40*time.Second {
+			atLeast = 40 * time.Second
+		}
+		q := sim.WireQuiet(atLeast, wUp, rr.Intn)
+		sim.SettleIdle()
+		parts := make([]string, n)
+		for i := 0; i < n; i++ {
+			parts[i] = fmt.Sprintf("r%d %s", i, dumpFibOf(i))
+		}
+		qs := "1"
+		if !q {
+			qs = "0"
+		}
+		return strings.Join(parts, " ; ") + " | q=" + qs
 	}
 	return "skip"
 }
